@@ -1,5 +1,66 @@
-"""C05 — fixed-sampling results depend on the physical field, not its array embedding."""
+"""C05 — fixed-sampling results depend on the physical field, not its array embedding.
+
+Deductive core: the relations that make the result independent of the embedding are relations between the matrix-DFT KERNELS
+that the fixed-sampling routines build for two embeddings of the same field; together with C01 (dft2 = Eout @ f @ Ein for its
+own key), C03 (Q N dx_in dx_out = lambda f) and C04 (pad2d maps origin to origin, zero elsewhere) they give the property for
+method='mdft' (linearity in the field is immediate from the C01 triple-product form, a sum of products linear in f).  The whole-transform statements (both methods, masks, Babinet) are the bounded harness below."""
 from pvc.api import *
+
+FT = 'prysm.fttools.'
+PR = 'prysm.propagation.'
+
+
+def _bases(fwd, shp, Q, out, shift):
+    ex = get(FT + 'MatrixDFTExecutor')()
+    key = ex._key(samples_in=shp, Q=Q, samples_out=out, shift=shift, fwd=fwd)
+    ex._setup_bases(key)
+    return ex.Eout[key], ex.Ein[key]
+
+
+@harness('C05', 'mdft/kernel-embedding-invariance', variants=['focus', 'unfocus'],
+         fuc=['prysm.fttools.MatrixDFTExecutor._setup_bases', 'prysm.fttools.MatrixDFTExecutor._key', 'prysm.propagation.Q_for_sampling',
+              'prysm.propagation.focus_fixed_sampling', 'prysm.propagation.unfocus_fixed_sampling'])
+def kernel_embedding(which):
+    """For a field of shape (m, n) and its zero-pad embedding of shape (m2 >= m, n2 >= n) at the same sample spacing, with the
+    per-axis Q that focus_/unfocus_fixed_sampling compute from the array shape (the real Q_for_sampling is called with the
+    arguments those routines pass), the kernel entry that multiplies input sample (y, x) in the small array equals the entry
+    that multiplies the same physical sample (y + m2//2 - m//2, x + n2//2 - n//2) in the embedded array, for every output
+    sample, output size and shift: the transform of the embedded field is the transform of the field."""
+    fwd = which == 'focus'
+    m, n, m2, n2 = Int('m', 1), Int('n', 1), Int('m2', 1), Int('n2', 1)
+    M, N = Int('M', 1), Int('N', 1)
+    assume(And(m2 >= m, n2 >= n))
+    dx, odx, efl, wvl = Real('dx', pos=True), Real('odx', pos=True), Real('efl', pos=True), Real('wvl', pos=True)
+    sx, sy = Real('sx'), Real('sy')
+    Qf = get(PR + 'Q_for_sampling')
+    if fwd:
+        # focus_fixed_sampling: Q_axis = Q_for_sampling(input_diameter=s * input_dx, prop_dist, wavelength, output_dx)
+        Q1 = tuple(Qf(input_diameter=s * dx, prop_dist=efl, wavelength=wvl, output_dx=odx) for s in (m, n))
+        Q2 = tuple(Qf(input_diameter=s * dx, prop_dist=efl, wavelength=wvl, output_dx=odx) for s in (m2, n2))
+    else:
+        # unfocus_fixed_sampling: Q_axis = Q_for_sampling(output_dx * s_out, prop_dist, wavelength, input_dx) / (s_in / s_out)
+        Q1 = tuple(Qf(input_diameter=odx * so, prop_dist=efl, wavelength=wvl, output_dx=dx) / (si / so) for si, so in ((m, M), (n, N)))
+        Q2 = tuple(Qf(input_diameter=odx * so, prop_dist=efl, wavelength=wvl, output_dx=dx) / (si / so) for si, so in ((m2, M), (n2, N)))
+    Eo1, Ei1 = _bases(fwd, (m, n), Q1, (M, N), (sx, sy))
+    Eo2, Ei2 = _bases(fwd, (m2, n2), Q2, (M, N), (sx, sy))
+    v, u, y, x = idx(M, 'v'), idx(N, 'u'), idx(m, 'y'), idx(n, 'x')
+    oy, ox = m2 // 2 - m // 2, n2 // 2 - n // 2
+    check('same-physical-sample-same-kernel-rows', approx(elem(Eo2, v, y + oy), elem(Eo1, v, y), 1e-9))
+    check('same-physical-sample-same-kernel-cols', approx(elem(Ei2, x + ox, u), elem(Ei1, x, u), 1e-9))
+
+
+@harness('C05', 'mdft/kernel-transposition', variants=[True, False], fuc=['prysm.fttools.MatrixDFTExecutor._setup_bases'])
+def kernel_transposition(fwd):
+    """Exchanging the roles of the axes (shape, Q, output size and shift all swapped per axis) transposes the kernel:
+    Eout'[u, x] = Ein[x, u] and Ein'[y, v] = Eout[v, y], so the transform of the transposed field is the transposed transform."""
+    m, n, M, N = Int('m', 1), Int('n', 1), Int('M', 1), Int('N', 1)
+    Qy, Qx = Real('Qy', pos=True), Real('Qx', pos=True)
+    sx, sy = Real('sx'), Real('sy')
+    Eo, Ei = _bases(fwd, (m, n), (Qy, Qx), (M, N), (sx, sy))
+    Eo_t, Ei_t = _bases(fwd, (n, m), (Qx, Qy), (N, M), (sy, sx))
+    v, u, y, x = idx(M, 'v'), idx(N, 'u'), idx(m, 'y'), idx(n, 'x')
+    check('shapes', And(shape_is(Eo_t, N, n), shape_is(Ei_t, m, M)))
+    check('kernel-of-transposed-problem-is-transposed', approx(elem(Eo_t, u, x) * elem(Ei_t, y, v), elem(Eo, v, y) * elem(Ei, x, u), 1e-9))
 
 
 @harness('C05', 'bounded/embedding-transpose-masks', kind='bounded',
